@@ -66,14 +66,7 @@ def job_unit(H, L, witness=False, zone=None):
     for f in inconcl: out["unwind"].append(f["desc"])
     for f in real:
         tv = f.get("trace", {})
-        bs = []
-        for i in range(L + 1):
-            v = tv.get("buf[%dl]" % i) or tv.get("buf[%d]" % i)
-            try: bs.append(int(v) & 255 if v is not None else 0)
-            except Exception: bs.append(0)
-        if isinstance(tv.get("buf"), list):
-            try: bs = [int(x) & 255 for x in tv["buf"]]
-            except Exception: pass
+        bs = [cbmc.to_int(tv.get("buf[%dl]" % i), 0) & 255 for i in range(L + 1)]
         out["failed"].append({"desc": f["desc"], "model": {"bytes": bs, "H": H}, "trace": None})
     return out
 
